@@ -7,6 +7,7 @@ from cohdl._compiler.backend import generate_vhdl
 class VhdlCompiler:
     @classmethod
     def to_ir(cls, entity):
+        from ._context import SequentialContext
         from ._prefix import _Prefix
 
         prefix_depth = len(_Prefix._prefix_scope)
@@ -16,6 +17,8 @@ class VhdlCompiler:
         finally:
             # an aborted compilation never runs the traced __exit__ of std.prefix
             del _Prefix._prefix_scope[prefix_depth:]
+            # nor the _exit_context() that follows the traced body of a process
+            SequentialContext._exit_context()
 
     @classmethod
     def to_vhdl_library(cls, top_entity, *, additional_reserved_names: set[str] = None):
